@@ -314,3 +314,13 @@ Proof.
   - rewrite Forall_forall in Ha. apply (derived_apart r la _ Hapa (Ha _ Hin)).
   - rewrite Forall_forall in Hb. apply (derived_apart r lb _ Hapb (Hb _ Hin)).
 Qed.
+
+(* the real binary search equals a linear scan on every table of the parser-local builder and on the WIN tables *)
+Lemma get_is_find_p {V} (eqb : V -> V -> bool) (l : list (range * V)) x : wf_ranges l ->
+  rm_get (into_rangemap_safe_p eqb l) x = find_linear (into_rangemap_safe_p eqb l) x.
+Proof. intros Hwf. destruct (sorted_disjoint_p eqb l Hwf). apply rm_get_is_find; assumption. Qed.
+
+Lemma win_get_is_find p l t x : wf_recs l -> win_table p l = Ret t -> rm_get t x = find_linear t x.
+Proof.
+  intros Hwf Ht. destruct (win_sorted_disjoint p l t Hwf Ht) as [A [B _]]. apply rm_get_is_find; assumption.
+Qed.
